@@ -3,7 +3,9 @@ PydapModel/Proxy.lean).  Tie: every top-level proxy event of real client histori
 objects re-read after every operation) is replayed on the model; the observables of *all* live proxies after every
 event (request ids / hyperslab / selection, decode columns, session) and the log of GETs must agree.
 Oracle (independent of the model): url/columns/session of every earlier object unchanged, every re-read returns
-what the first read returned, a derived object reads what a fresh client applying the same selection reads."""
+what the first read returned, a derived object reads what a fresh client applying the same selection reads.
+Round 2: BaseType / GridType objects are part of the traced heap (variable[index], grid[key] with output_grid on/off; the
+GET log contains the map requests; data of every variable — proxy reference or received positions — snapshotted)."""
 import common
 from props import clientsim as cs
 
@@ -220,7 +222,8 @@ def grid_pass(ctx, tier, search=False):
 def run(ctx):
     ctx.rule = ("seeded random histories of 1..8 user operations {seq[cols], seq[cond], seq[a:b(:k)], seq[int], seq[name], "
                 "read, array[index], grid[index], DAP4 variable[index], server function call+read} applied to arbitrary "
-                "earlier results of one opened dataset; plus array/grid/map read histories (2..6 reads, output_grid on/off, every "
+                "earlier results of one opened dataset; traced grid histories (1..6 reads of the opened grid with output_grid on/off, "
+                "of its maps, of grids returned by earlier reads and of their variables, mixed with sequence operations); plus array/grid/map read histories (2..6 reads, output_grid on/off, every "
                 "earlier read repeated after every later one, compared with numpy); "
                 "earlier results of one opened dataset, every live object re-read after every operation, plus fixed "
                 "histories; a history is non-trivial when it contains a derivation; distinct by operation list")
